@@ -443,17 +443,48 @@ func c13RaceRun(arg string) explore.RunFn {
 func init() {
 	explore.RegisterBFS("c13e1", c13E1Run)
 	explore.RegisterDFS("c13race", c13RaceRun)
+	// Part 3 (E3): scenario "c13limit" - concurrent CONNECTs against a connected-client limit
+	// (C35's scenario and wire-level timeline), judged for this property only: on every
+	// connection the first packet is a CONNACK, there is never a second one, a refused
+	// connection is written nothing else and is closed.
+	explore.RegisterDFS("c13limit", func(arg string) explore.RunFn {
+		run := c35Run(arg)
+		return func(prefix []int) explore.Outcome {
+			o := run(prefix)
+			var keep []explore.Violation
+			for _, v := range o.Viol {
+				switch {
+				case strings.HasPrefix(v.Key, "first-packet-"), v.Key == "second-connack", v.Key == "packet-after-refusal", v.Key == "refused-left-open", v.Key == "no-connack":
+					v.Key = "limit-race:" + v.Key
+					keep = append(keep, v)
+				case strings.HasPrefix(v.Key, "exceeded:"), strings.HasPrefix(v.Key, "refusal-code:"):
+					// C35's subject
+				default:
+					keep = append(keep, v) // panics, deadlocks, divergence
+				}
+			}
+			o.Viol = keep
+			return o
+		}
+	})
 	explore.Register("C13", func(c *explore.Ctx) {
 		c.Rep.Level = "model_checking"
 		c.Rep.Assumption("part 1: every first packet is fed to a fresh broker through EstablishConnection over an in-memory connection and run to quiescence (one execution per case)")
+		c.Rep.Assumption("part 3: concurrent CONNECTs against Capabilities.MaximumClients, every interleaving up to the deviation bound, judged on the bytes the broker writes to each connection")
 		c.Rep.Assumption("part 2: threads serialised by the cooperative scheduler; every interleaving of the reconnecting client's attach, the publisher's handler and the write loops up to the deviation bound")
 		bounds := []explore.Bounds{{Preempt: 0}, {Preempt: 1}, {Preempt: 2}}
 		if c.Quick() {
+			for _, s := range []string{"1::b4+c5", "1:a5:b5+c4"} {
+				explore.IterateDFS(c, "c13limit", s, bounds, 8*time.Second)
+			}
 			explore.RunBFS(c, "c13e1", "quick", 1, 45*time.Second)
 			for _, s := range []string{"q0,big", "q1,big", "q0", "q1,inflight"} {
 				explore.IterateDFS(c, "c13race", s, bounds, 40*time.Second)
 			}
 		} else {
+			for _, s := range []string{"1::b4+c5", "1::b5+c5+d4", "2:a5:b5+c4", "1:a5:a5+b4"} {
+				explore.IterateDFS(c, "c13limit", s, append(bounds, explore.Bounds{Preempt: 3}), 40*time.Second)
+			}
 			explore.RunBFS(c, "c13e1", "full", 1, 7*time.Minute)
 			bounds = append(bounds, explore.Bounds{Preempt: 3})
 			for _, s := range []string{"q0", "q1", "q1,inflight", "q0,two", "q1,two", "q0,dropfirst", "q1,inflight,dropfirst",
